@@ -384,6 +384,20 @@ class FnCompiler:
                 return code, rtype, False
             raise Fail("call of %s (line %d)" % (name, e.lineno))
         if isinstance(f, ast.Attribute):
+            xcalls = self.spec.get("calls", {})
+            if ast.unparse(f) in xcalls:
+                # a method of another translated class, called on an object held in a field (the field is the tuple of that
+                # object's own fields)
+                coqfn, fld, ptypes, rtype = xcalls[ast.unparse(f)]
+                ftype = env.get(fld) or _fail("unknown field %s" % fld)
+                args = [self.expr(a, env) for a in e.args]
+                if [t for _, t, _ in args] != ptypes:
+                    raise Fail("argument types of %s" % ast.unparse(f))
+                us = ["u%d_" % i for i in range(len(ftype) - 1)]
+                code, _ = self.combine([(c, p) for c, _, p in args],
+                                       lambda *a: "(let '(%s) := %s in %s %s %s)" % (", ".join(us), self.key_var(fld), coqfn, " ".join(us), " ".join(a)),
+                                       result_pure=False)
+                return code, rtype, False
             if ast.unparse(f) == "copy.copy" and len(e.args) == 1:
                 return self.expr(e.args[0], env)              # values of the model are immutable
             if f.attr == "lower" and not e.args:
@@ -484,9 +498,30 @@ class FnCompiler:
                     return self.pop_stmt(value, env, lambda vcode, env2: self.store_item(key, var, tc, (ci, ti, pi), (vcode, tc[-1] if tc[0] == "dict" else tc[1], True), env2, cont))
                 cv, tv, pv = self.expr(value, env)
                 return self.store_item(key, var, tc, (ci, ti, pi), (cv, tv, pv), env, cont)
+            if isinstance(target, ast.Tuple) and all(isinstance(x, ast.Name) for x in target.elts):
+                names = [x.id for x in target.elts]
+                if self.is_list_pop_last(value, env):
+                    lkey = self.target_key(value.func.value)
+                    lvar = self.key_var(lkey)
+                    et = env[lkey][1]
+                    pv = self.fresh("p")
+                    head = "'(%s, %s) <- list_pop_last %s ;;\n" % (pv, lvar, lvar)
+                    cv, tv, pvp = pv, et, True
+                else:
+                    head = ""
+                    cv, tv, pvp = self.expr(value, env)
+                if not (isinstance(tv, tuple) and tv[0] == "tuple" and len(tv) - 1 == len(names)):
+                    raise Fail("tuple assignment from %r (line %d)" % (tv, s.lineno))
+                env2 = dict(env)
+                for nm_, t_ in zip(names, tv[1:]):
+                    self.set_var(nm_, t_, env2)
+                pat_ = "'(" + ", ".join(vname(nm_) for nm_ in names) + ")"
+                if pvp:
+                    return head + "let %s := %s in\n%s" % (pat_, cv, cont(env2))
+                return head + "%s <- %s ;;\n%s" % (pat_, cv, cont(env2))
             key = self.target_key(target)
             var = self.key_var(key)
-            if self.is_pop(value):
+            if self.is_pop(value) and env.get(self.target_key(value.func.value), ("",))[0] == "dict":
                 def after(vcode, env2):
                     env3 = dict(env2)
                     self.set_var(key, self.pop_type(value, env2), env3)
@@ -530,6 +565,16 @@ class FnCompiler:
                 else:
                     raise Fail("%s.%s(%r) (line %d)" % (key, c.func.attr, tv, s.lineno))
                 return self.bind_stmt(var, code, pure, cont(env))
+            hooks = self.spec.get("hooks", {})
+            if ast.unparse(c.func) in hooks and len(c.args) == 1:
+                # an abstract method of the class, modelled by what it does to the object: `self._set_all_obj_params(v)` stores v
+                kind_, fld = hooks[ast.unparse(c.func)]
+                if kind_ != "assign":
+                    raise Fail("hook kind %s" % kind_)
+                cv, tv, pv = self.expr(c.args[0], env)
+                if env.get(fld) != tv:
+                    raise Fail("hook %s stores %r into %r" % (ast.unparse(c.func), tv, env.get(fld)))
+                return self.bind_stmt(self.key_var(fld), cv, pv, cont(env))
             if isinstance(c.func, ast.Name) and c.func.id == "assert_runtime" and len(c.args) == 2:
                 cc, tcnd, pc = self.expr(c.args[0], env)
                 if tcnd != B:
@@ -567,35 +612,56 @@ class FnCompiler:
             targets = [x.id for x in ast.walk(s.target) if isinstance(x, ast.Name)]
             state = [kk for kk in self.assigned(s.body) if kk in env and kk not in targets]
             svars = [self.key_var(kk) for kk in state]
+            # a `return` inside the loop: the state carries `Some <the function's result>` once it has been reached, the remaining
+            # iterations do nothing and the code after the loop is skipped
+            has_ret = any(isinstance(x, ast.Return) for b_ in s.body for x in ast.walk(b_))
+            if has_ret and in_loop is not None:
+                raise Fail("return inside nested loops (line %d)" % s.lineno)
+            rv = self.fresh("ret") + "_"
+            allvars = ([rv] if has_ret else []) + svars
 
-            def body_k(env2):
+            def body_k(env2, ret=None):
                 for kk in state:
                     if env2.get(kk) != env[kk]:
                         raise Fail("loop changes the type of %s" % kk)
-                return "Ok %s" % tuple_val(svars)
+                if not has_ret:
+                    return "Ok %s" % tuple_val(svars)
+                if ret is None:
+                    return "Ok %s" % tuple_val(["None"] + svars)
+                code, pure = ret
+                if pure:
+                    return "Ok %s" % tuple_val(["(Some (%s))" % code] + svars)
+                v = self.fresh()
+                return "(%s <- %s ;; Ok %s)" % (v, code, tuple_val(["(Some %s)" % v] + svars))
             body = self.block(s.body, envb, body_k, in_loop=body_k)
             env_after = {kk: v for kk, v in env.items()}          # loop-local variables do not survive in the model
             # the state is destructured INSIDE the function (fun st x => let '(a, b) := st in ...): a pattern in the first
             # binder would elaborate to a match returning a function, which is awkward to reason about
             stv = self.fresh("st") + "_"
-            if len(svars) > 1:
-                body = "let %s := %s in\n%s" % (tuple_pat(svars), stv, body)
+            if has_ret:
+                body = "match %s with\n| Some _ => Ok %s\n| None => (\n%s\n)\nend" % (rv, stv if len(allvars) > 1 else rv, body)
+            if len(allvars) > 1:
+                body = "let %s := %s in\n%s" % (tuple_pat(allvars), stv, body)
                 st_pat = stv
             else:
-                st_pat = svars[0] if svars else "(_ : unit)"
-            loop = "for_each %%s (fun %s %s =>\n%s) %s" % (st_pat, pat, body, tuple_val(svars))
+                st_pat = allvars[0] if allvars else "(_ : unit)"
+            init = tuple_val((["(@None %s)" % coq_type(self.ret_type)] if has_ret else []) + svars)
+            loop = "for_each %%s (fun %s %s =>\n%s) %s" % (st_pat, pat, body, init)
             code, _ = self.combine([(ci, pi)], lambda it: loop % it, result_pure=False)
             after = cont(env_after)
-            if len(svars) <= 1:
-                return "%s <- %s ;;\n%s" % (svars[0] if svars else "_", code, after)
-            return "%s <- %s ;;\n%s" % (tuple_pat(svars), code, after)
+            if has_ret:
+                after = "match %s with\n| Some r_ => Ok r_\n| None => (\n%s\n)\nend" % (rv, after)
+            if len(allvars) <= 1:
+                return "%s <- %s ;;\n%s" % (allvars[0] if allvars else "_", code, after)
+            return "%s <- %s ;;\n%s" % (tuple_pat(allvars), code, after)
         if isinstance(s, ast.Continue):
             if in_loop is None:
                 raise Fail("continue outside a loop")
             return in_loop(env)
         if isinstance(s, ast.Return):
             if in_loop is not None:
-                raise Fail("return inside a loop (line %d)" % s.lineno)
+                code, ty, pure = self.finish_value(None if s.value is None else self.expr(s.value, env), env)
+                return in_loop(env, ret=(code, pure))
             if s.value is None:
                 return self.finish(None, env)
             return self.finish(self.expr(s.value, env), env)
@@ -625,6 +691,22 @@ class FnCompiler:
             return self.bind_stmt(var, code, pure, cont(env))
         raise Fail("item assignment %s[%r] = %r with %r" % (key, ti, tv, tc))
 
+    def is_list_pop_last(self, v, env):
+        """x.pop() / x.pop(-1) on a list variable"""
+        if not (isinstance(v, ast.Call) and isinstance(v.func, ast.Attribute) and v.func.attr == "pop" and not v.keywords):
+            return False
+        try:
+            t = env.get(self.target_key(v.func.value))
+        except Fail:
+            return False
+        if not (isinstance(t, tuple) and t[0] == "list"):
+            return False
+        if len(v.args) == 0:
+            return True
+        a = v.args[0]
+        return len(v.args) == 1 and isinstance(a, ast.UnaryOp) and isinstance(a.op, ast.USub) and isinstance(a.operand, ast.Constant) \
+            and a.operand.value == 1
+
     def is_pop(self, v):
         return isinstance(v, ast.Call) and isinstance(v.func, ast.Attribute) and v.func.attr == "pop" and len(v.args) == 1 \
             and not v.keywords
@@ -646,23 +728,33 @@ class FnCompiler:
         code, _ = self.combine([(ck, pk)], lambda a: "d_pop %s %s %s" % (eqb_of(tk), var, a), result_pure=False)
         return "'(%s, %s) <- %s ;;\n%s" % (pv, var, code, after(pv, env))
 
-    def finish(self, compiled, env):
-        """return value (plus the final values of the in-out parameters)"""
+    def finish_value(self, compiled, env):
+        """-> (code, type, pure) of the function's result: the returned value, then the final values of the in-out parameters and
+        of the object fields the method mutates; a method that returns nothing returns the mutated fields only"""
         if self.is_init:
             if compiled is not None:
                 raise Fail("__init__ returns a value")
             names = [self.key_var(kk) for kk, _ in self.self_fields]
             ty = T(*[t for _, t in self.self_fields])
             self.note_ret(ty)
-            return "Ok %s" % tuple_val(names)
+            return tuple_val(names), ty, True
+        extras_k = list(self.inout) + list(self.spec.get("mutates", []))
         if compiled is None:
-            raise Fail("bare return")
+            if not self.spec.get("mutates"):
+                raise Fail("bare return")
+            ty = T(*[env[x] for x in extras_k]) if len(extras_k) > 1 else env[extras_k[0]]
+            self.note_ret(ty)
+            return tuple_val([self.key_var(x) for x in extras_k]), ty, True
         code, ty, pure = compiled
-        if self.inout:
-            ty = T(ty, *[env[x] for x in self.inout])
-            extras = [vname(x) for x in self.inout]
+        if extras_k:
+            ty = T(ty, *[env[x] for x in extras_k])
+            extras = [self.key_var(x) for x in extras_k]
             code, pure = self.combine([(code, pure)], lambda a: "(" + ", ".join([a] + extras) + ")")
         self.note_ret(ty)
+        return code, ty, pure
+
+    def finish(self, compiled, env):
+        code, ty, pure = self.finish_value(compiled, env)
         return "Ok (%s)" % code if pure else code
 
     def note_ret(self, ty):
@@ -691,13 +783,13 @@ class FnCompiler:
         binders = []
         if is_method and not self.is_init:
             cls = spec["qual"].split(".")[0]
-            for kk, t in self.unit.fields[cls]:
+            for kk, t in (spec.get("fields") or self.unit.fields[cls]):
                 env[kk] = t
                 binders.append("(%s : %s)" % (self.key_var(kk), coq_type(t)))
         binders += ["(%s : %s)" % (vname(n), coq_type(t)) for n, t in spec["params"]]
 
         def end(env2):
-            if self.is_init:
+            if self.is_init or spec.get("mutates"):
                 return self.finish(None, env2)
             raise Fail("%s: control reaches the end without return" % spec["qual"])
         body = self.block(fdef.body, env, end)
@@ -713,8 +805,8 @@ class FnCompiler:
 
 
 class Unit:
-    def __init__(self, relpath, specs):
-        self.relpath, self.specs = relpath, specs
+    def __init__(self, relpath, specs, imports=""):
+        self.relpath, self.specs, self.imports = relpath, specs, imports
         self.src = open(os.path.join(vlib.REPO, relpath), newline=None).read()
         self.done, self.fields = {}, {}
 
@@ -770,7 +862,27 @@ UNITS = {
     "PyPackerIdx": ("xitorch/_core/packer.py", [
         dict(qual="_get_unique_idxs", coq="packer_get_unique_idxs", params=[("b", L(O))]),
     ]),
+    # PureFunction: the object is the tuple of its fields; `_store` stands for the tensors held by the wrapped object's parameter
+    # slots (what the abstract _set_all_obj_params writes); `_uniq` is the tuple of the Uniquifier's fields
+    "PyPureFn": ("xitorch/_core/pure_function.py", [
+        dict(qual="_check_identical_objs", coq="check_identical_objs", params=[("objs1", L(O)), ("objs2", L(O))]),
+        dict(qual="PureFunction.set_objparams", coq="purefn_set_objparams", params=[("objparams", L(O))],
+             fields="PF_FIELDS", mutates=["self._store", "self._cur_objparams", "self._restore_stack"],
+             hooks={"self._set_all_obj_params": ("assign", "self._store")},
+             calls={"self._uniq.map_unique_objs": ("uniquifier_map_unique_objs", "self._uniq", [L(O)], L(O))}),
+        dict(qual="PureFunction.restore_objparams", coq="purefn_restore_objparams", params=[],
+             fields="PF_FIELDS", mutates=["self._store", "self._cur_objparams", "self._restore_stack"],
+             hooks={"self._set_all_obj_params": ("assign", "self._store")},
+             calls={"self._uniq.map_unique_objs": ("uniquifier_map_unique_objs", "self._uniq", [L(O)], L(O))}),
+    ], "From XV Require Import Gen.PyUnique.\n"),
 }
+TU = T(Z, L(O), L(Z), L(Z), Z, B)          # the fields of a Uniquifier, in the order of Gen/PyUnique.v
+PF_FIELDS = [("self._state_change_allowed", B), ("self._store", L(O)), ("self._uniq", TU), ("self._cur_objparams", L(O)),
+             ("self._restore_stack", L(T(L(O), B)))]
+for _u in UNITS.values():
+    for _sp in _u[1]:
+        if _sp.get("fields") == "PF_FIELDS":
+            _sp["fields"] = PF_FIELDS
 
 HEADER = """(* GENERATED by tools/translate_py.py from /repo's working tree (%s) -- do not edit *)
 From Coq Require Import ZArith List Bool.
@@ -790,6 +902,7 @@ RELEVANT = {
     "PyMisc": ["C18", "C04", "C08"],
     "PyUnique": ["C09", "C10"],
     "PyPackerIdx": ["C20"],
+    "PyPureFn": ["C09", "C10"],
 }
 LAST_INFO = {}
 
@@ -798,9 +911,10 @@ def generate(prop=None):
     """-> {relative path: text}; fail-closed for the units the property depends on"""
     out = {}
     LAST_INFO.clear()
-    for name, (relpath, specs) in UNITS.items():
+    for name, uspec in UNITS.items():
+        relpath, specs, imports = (uspec + ("",))[:3]
         try:
-            text = HEADER % relpath + Unit(relpath, specs).translate()
+            text = HEADER % relpath + imports + Unit(relpath, specs, imports).translate()
         except (Fail, SyntaxError, OSError) as e:
             if prop is None or prop in RELEVANT[name]:
                 raise Fail("%s (%s): %s" % (name, relpath, e))
